@@ -13,6 +13,7 @@ import (
 
 	loxast "github.com/dcaiafa/lox/internal/ast"
 	"github.com/dcaiafa/lox/internal/base/errlogger"
+	"github.com/dcaiafa/lox/internal/codegen"
 	loxparser "github.com/dcaiafa/lox/internal/parser"
 	"github.com/dcaiafa/lox/verif/internal/fromast"
 
@@ -307,6 +308,7 @@ func c10Worker(c *mc.Ctx) {
 		}
 	}
 	c10Real(c, ws, "C10")
+	c10TableRoundTrip(c)
 	// Parser side: decoded arrays equal the automaton object exactly.
 	pf := []family{
 		{Name: "plain", Space: gen.NewSpace(2, 2, 2, 2, false)},
@@ -361,6 +363,22 @@ func c10Replay(raw json.RawMessage) *mc.Violation {
 	}
 	if probe.Spec != nil {
 		return lexReplay("C10", func(*lexref.Compiled) (bool, string) { return true, "" })(raw)
+	}
+	var rt struct {
+		Rows [][]int32 `json:"rows"`
+	}
+	if json.Unmarshal(raw, &rt); rt.Rows != nil {
+		arr := codegen.VerifTableArray(rt.Rows)
+		dec, err := px.DecodeRows(arr)
+		if err != nil || len(dec) != len(rt.Rows) {
+			return &mc.Violation{Property: "C10", Check: "C10", Kind: "table-row-sharing", Detail: fmt.Sprint("rows ", rt.Rows, " decode to ", dec, " ", err)}
+		}
+		for i := range dec {
+			if fmt.Sprint(dec[i]) != fmt.Sprint(rt.Rows[i]) {
+				return &mc.Violation{Property: "C10", Check: "C10", Kind: "table-row-sharing", Detail: fmt.Sprint("rows ", rt.Rows, " decode to ", dec)}
+			}
+		}
+		return nil
 	}
 	ws := pipe.NewWorkspace("c10r")
 	defer ws.Close()
@@ -479,4 +497,49 @@ func c10Real(c *mc.Ctx, ws *pipe.Workspace, property string) {
 				Detail: fmt.Sprintf("%s after pushing %s: %s", rs.name, mm.PathText(), mm.Detail)})
 		}
 	}
+}
+
+// c10TableRoundTrip: every pair of rows over a small universe of cell values
+// (one-, two- and three-digit numbers whose decimal renderings are prefixes of
+// each other, negative values, the accept code) goes through the repository's
+// row-sharing table; the decoded rows must be the rows put in, so rows are
+// shared only when identical.
+func c10TableRoundTrip(c *mc.Ctx) {
+	vals := []int32{0, 1, 2, 10, 11, 12, 100, 101, 110, 111, -1, -11, math.MaxInt32}
+	var rows [][]int32
+	var rec func(cur []int32)
+	rec = func(cur []int32) {
+		rows = append(rows, append([]int32(nil), cur...))
+		if len(cur) == 3 {
+			return
+		}
+		for _, v := range vals {
+			rec(append(cur[:len(cur):len(cur)], v))
+		}
+	}
+	rec(nil)
+	n := int64(0)
+	for i, a := range rows {
+		if !c.Mine(int64(i)) {
+			continue
+		}
+		for _, b := range rows {
+			n++
+			arr := codegen.VerifTableArray([][]int32{a, b, a})
+			dec, err := px.DecodeRows(arr)
+			bad := ""
+			if err != nil {
+				bad = err.Error()
+			} else if len(dec) != 3 || fmt.Sprint(dec[0]) != fmt.Sprint(a) || fmt.Sprint(dec[1]) != fmt.Sprint(b) || fmt.Sprint(dec[2]) != fmt.Sprint(a) {
+				bad = fmt.Sprintf("decoded rows %v", dec)
+			}
+			if bad != "" {
+				c.Stats.Violate(mc.Violation{Property: "C10", Check: "C10", Kind: "table-row-sharing", Size: len(a) + len(b), Case: mustJSON(map[string]any{"rows": [][]int32{a, b, a}}),
+					Detail: fmt.Sprintf("rows %v, %v, %v put into the row-sharing table come back as something else: %s", a, b, a, bad)})
+				return
+			}
+		}
+	}
+	c.Stats.Evaluations += n
+	c.Stats.Add("table_round_trips", n)
 }
